@@ -765,7 +765,7 @@ def _fmt_dt(minutes, off):
     return f"{s}{sign}{abs(off) // 60:02d}:{abs(off) % 60:02d}"
 
 
-INSTANTS = [28928160, 28401120, 29000000 - 29000000 % 60, 27000000]
+INSTANTS = [28928160, 28928160 + 1920, 28401120 + 1200, 29000000 - 29000000 % 60, 27000000 + 480]
 OFFSETS = [0, 60, -300, 330, -720, 540, 840]
 
 
@@ -785,6 +785,20 @@ def gen_dates(rng, aware_mix=False):
       datetime: {_fmt_dt(inst, off)}
     day_aware:
       date: {_fmt_dt(inst, off)}
+    dz_zone:
+      datetime:
+        datetimespec: {_fmt_dt(inst, off)}
+        timezone:
+          relativedelta:
+            hours: 5
+    dz_naive:
+      datetime:
+        datetimespec: {_fmt_dt(inst, off)}
+        timezone: False
+    db_aware:
+      date_between:
+        start_date: {_fmt_dt(inst, off)}
+        end_date: {_fmt_dt(inst, off)}
     d_obj:
       date: {day}
     d_str:
@@ -986,11 +1000,12 @@ def fixed_sequences():
     # D19b: same instant, different offsets, both orders
     def aware(inst, off):
         text = ("- snowfakery_version: 3\n- object: Stamp\n  fields:\n    dt_aware:\n      datetime: " + _fmt_dt(inst, off)
-                + "\n    day_aware:\n      date: " + _fmt_dt(inst, off) + "\n")
+                + "\n    day_aware:\n      date: " + _fmt_dt(inst, off) + "\n    dz_naive:\n      datetime:\n        datetimespec: "
+                + _fmt_dt(inst, off) + "\n        timezone: False\n")
         return finish({"kind": "aware", "recipe": text, "reps": 1, "det": True, "features": ["dates", "aware", "aware_mix"], "aware": [inst, off]})
 
-    out.append([aware(28928160 + 1200, -720), aware(28928160 + 1200, 0)])
-    out.append([aware(28928160 + 1200, 0), aware(28928160 + 1200, -720)])
+    out.append([aware(28928160 + 1920, -720), aware(28928160 + 1920, 0)])
+    out.append([aware(28928160 + 1920, 0), aware(28928160 + 1920, -720)])
     # D19d: two directories, same plugin module name
     out.append([gen_plugin(rng, alias=True), gen_plugin(rng, alias=True)])
     # D19c
@@ -1037,6 +1052,12 @@ ALLOWED_CHANGES = {
     "ext:SnowfakeryDumper.representers",
     "ext:yaml.SafeDumper.representers",
 }
+
+
+# fields through which the (unrepaired part of) D19b is observable: `date:` / `date_between` of an aware datetime
+# (parse_date returns the offset-dependent calendar day) and `datetime:` with a non-default zone.  `dt_aware`
+# (`datetime:` with the default zone) is NOT in the list: commit f914bf1 made it independent of the cache.
+ALIAS_FIELDS = {"day_aware", "dz_zone", "dz_naive", "db_aware"}
 
 
 def differing_fields(a_rows, b_rows):
@@ -1102,18 +1123,87 @@ def model_check(rep, case, seq, res):
             ok = False
         rep.count("ops-replayed", len(r["ops"]))
     res["_explained_alias"] = sorted(explained_alias)
+    ok = datetime_view_check(rep, case, seq, res, val) and ok
+    ok = dialect_check(rep, case, seq, res) and ok
     rep.traces_validated += 1
     return ok
 
 
+def _enc_row_datetime(v):
+    """captured {"t": "datetime", "v": iso} -> model key"""
+    import datetime as _dt
+
+    if not (isinstance(v, dict) and v.get("t") == "datetime"):
+        return None
+    d = _dt.datetime.fromisoformat(v["v"])
+    if d.tzinfo is None:
+        delta = d - _dt.datetime(1970, 1, 1)
+        return ["naive", delta.days * 1440 + delta.seconds // 60]
+    delta = d - _dt.datetime(1970, 1, 1, tzinfo=_dt.timezone.utc)
+    off = d.utcoffset()
+    return ["aware", delta.days * 1440 + delta.seconds // 60, off.days * 1440 + off.seconds // 60]
+
+
+def datetime_view_check(rep, case, seq, res, replay):
+    """`Functions.datetime` = `datetimeFn tz` applied to what the cache returned (model: the replayed observation):
+    the emitted dt_aware (default zone), dz_zone (+05:00), dz_naive (timezone: False) must be exactly that."""
+    reqs, metas = [], []
+    for i, (spec, r, m) in enumerate(zip(seq, res["runs"], replay)):
+        if not spec.get("aware") or r["outcome"] != "ok" or spec.get("api") == "generate_data" or not r["rows"]:
+            continue
+        key = ["aware", spec["aware"][0], spec["aware"][1]]
+        served = None
+        for o, mo in zip(r["ops"], m["ops"]):
+            if o["op"][:3] == ["lookup", "parse_datetimespec", key] and mo["obs"][0] == "val":
+                served = mo["obs"][1]
+                break
+        if served is None:
+            continue
+        fields = dict((k, v) for k, v in r["rows"][0][1])
+        for fname, tz in (("dt_aware", 0), ("dz_zone", 300), ("dz_naive", None)):
+            if fname in fields:
+                reqs.append({"m": "c19.datetime", "tz": tz, "v": served})
+                metas.append((i, fname, fields[fname]))
+    ok = True
+    for (i, fname, real), (st, val) in zip(metas, common.model_batch(reqs)):
+        rep.count("datetime-view-compared")
+        if st != "ok" or val != _enc_row_datetime(real):
+            rep.disagreement("c19.datetime:view", dict(case, run=i, field=fname), val, real)
+            ok = False
+    return ok
+
+
+def dialect_check(rep, case, seq, res):
+    """one plugin_options dict passed to several generate() calls: the dialect every call runs under is the model's
+    (`dialects copies:=true`, the repaired code); observed through `${{child_index}}` of the first row ('0' vs 0)."""
+    if not seq or any(s["kind"] != "po" for s in seq) or len({s.get("po_key") for s in seq}) != 1:
+        return True
+    import re
+
+    versions, observed = [], []
+    for spec, r in zip(seq, res["runs"]):
+        m = re.search(r"snowfakery_version: (\d)", spec["recipe"])
+        versions.append(int(m.group(1)) if m else None)
+        x = dict((k, v) for k, v in r["rows"][0][1]).get("x") if r["rows"] else None
+        observed.append(2 if isinstance(x, dict) else 3)
+    d = sorted((k, v) for k, v in (seq[0].get("plugin_options") or {}).items() if isinstance(v, int))
+    ((st, val),) = common.model_batch([{"m": "c19.dialects", "copies": True, "dict": [list(e) for e in d], "versions": versions}])
+    rep.count("dialects-compared")
+    if st != "ok" or val != observed:
+        rep.disagreement("c19.dialects", case, val, observed)
+        return False
+    return True
+
+
 def l2_check(rep, spec, base):
-    """Evidence only: the rows of the baseline run against the L2 reference interpreter.  The L2 differential
-    itself is C03's subject (its model may lag behind a source fix); a disagreement here is counted, not raised."""
+    """The rows of the baseline run against the L2 reference interpreter (no continuation file is written:
+    `final_save: false`); together with the position-i == baseline oracle this is "each run's output equals the
+    model's output for that recipe alone"."""
     if not spec.get("l2") or spec.get("api") == "generate_data":
         return
     from . import l2
 
-    (m,) = common.model_batch([{"m": "l2.run", "recipe": spec["l2"], "parts": [spec["reps"]]}])
+    (m,) = common.model_batch([{"m": "l2.run", "recipe": spec["l2"], "parts": [spec["reps"]], "final_save": False}])
 
     class Chain:
         pass
@@ -1121,8 +1211,7 @@ def l2_check(rep, spec, base):
     ch = Chain()
     ch.outcome, ch.error = base["outcome"], base["error"]
     ch.rows = [(t, [(k, v) for k, v in fs]) for t, fs in base["rows"]]
-    scratch = common.Report("C19")
-    r = l2.compare(scratch, "c19.l2", {"recipe": spec["recipe"], "parts": [spec["reps"]]}, ch, m)
+    r = l2.compare(rep, "c19.l2", {"recipe": spec["recipe"], "parts": [spec["reps"]], "ast": spec["l2"]}, ch, m)
     rep.count("l2:" + r)
 
 
@@ -1168,7 +1257,7 @@ def check_sequence(rep, seq, res, baselines, known):
             fields = differing_fields(got["rows"], want["rows"]) if got["outcome"] == want["outcome"] else {"<outcome>"}
             sig = "C19:output-depends-on-earlier-runs"
             feats = set(spec.get("features", []))
-            if "aware" in feats and fields and fields <= {"dt_aware", "day_aware"} and i in res.get("_explained_alias", []):
+            if "aware" in feats and fields and fields <= ALIAS_FIELDS and i in res.get("_explained_alias", []):
                 sig = "C19:datetime-cache-aliasing-across-runs"
             elif "alias" in feats and fields and fields <= {"plug", "mem"}:
                 sig = "C19:local-plugin-module-aliasing"
